@@ -60,7 +60,7 @@ impl Verdict {
 
 pub fn environment(b: &Built) -> Environment {
     Environment {
-        prot_params: params::multi_era(b.params_era, b.max_tx_size),
+        prot_params: params::multi_era_at(b.params_era, b.max_tx_size, b.slot),
         prot_magic: b.magic,
         block_slot: b.slot,
         network_id: b.network_id,
